@@ -672,3 +672,10 @@ package client
 //@   callsite (*Client).fundLedgerChannel : ch == old(ch) && istype(prop, "*LedgerChannelProposalMsg") && agreement == as(prop, "*LedgerChannelProposalMsg").FundingAgreement
 //@   callsite (*Client).fundSubchannel : subChannel == ch && prop != nil
 //@   callsite (*Client).fundVirtualChannel : virtual == ch && prop != nil
+
+// The response filter of a channel connection (C06: responses are routed per channel): it accepts exactly the update accept and
+// reject messages that carry this channel's ID - a response for another channel of the same peer pair never reaches this channel.
+//@ func newChannelConn$3
+//@   requires e != nil
+//@   ensures result <==> (istype(e.Msg, "*ChannelUpdateAccMsg") && payload(e.Msg) != 0 && as(e.Msg, "*ChannelUpdateAccMsg").ChannelID == *id) ||
+//@                        (istype(e.Msg, "*ChannelUpdateRejMsg") && payload(e.Msg) != 0 && as(e.Msg, "*ChannelUpdateRejMsg").ChannelID == *id)
